@@ -113,9 +113,9 @@ func (c schedCfg) dstTag(id string) string {
 			days = 7
 		}
 	}
-	for _, sec := range []int{c.end, c.start} {
+	for i, sec := range []int{c.end, c.start} {
 		dd := days
-		if sec == c.start {
+		if i == 1 { // the opening edge lies on the opening day (also when StartTime equals EndTime)
 			dd = 0
 		}
 		d := time.Date(open.Year(), open.Month(), open.Day()+dd, 0, 0, sec, 0, c.loc)
@@ -362,11 +362,20 @@ func runC18(env *Env, tier string) {
 				if t2 := sc.dstTag(prevID); t2 != tags {
 					tags += t2
 				}
+				if strings.Contains(tags, "window-edge-in-repeated-dst-hour") && !strings.Contains(tags, "dst-gap") && r-lastResets <= 1 {
+					// The edge is a wall-clock time that occurs twice that day: either occurrence may be the
+					// boundary, so one reset more or less than this oracle's choice predicts is not judged. A
+					// boundary is crossed once, though: two or more resets are.
+					env.Stat("not_judged_single_reset_at_window_edge_in_repeated_dst_hour")
+					lastResets, prevID = r, id
+					goto classified
+				}
 				c18Violate(env, "C18/reset"+tags, "at %s (window opened %s; previous in-window instant's window %q): store was reset %d times since, schedule %v", desc, id, prevID, r-lastResets, extra)
 				break
 			}
 			lastResets, prevID = r, id
 		}
+	classified:
 		// ---- accepted <=> in window ----
 		p.EP = nil
 		if !p.Connect(time.Second) {
